@@ -921,16 +921,11 @@ Definition T_dp_choice (pn : pnet) : list rule :=
   flat_map (fun v => [RChoice (v, true); RChoice (v, false); RConstraint [(v, true); (v, false)];
                       RDisj [(v, true); (v, false)] []]) (p_vars pn).
 
-Definition T_dp_avoid (avoid : list space) : list rule :=
-  if existsb (fun a => match fixed_vars a with [] => true | _ => false end) avoid
-  then [RFalse]
-  else map (fun a => RConstraint (fixed_vars a)) avoid.
-
 Lemma T_deadlock_program_parts : forall pn ensure avoid M,
   is_model M (deadlock_program pn ensure avoid) =
   is_model M (T_dp_choice pn) &&
   (is_model M (map (fun t => RConstraint (pre_places t)) (p_trans pn)) &&
-   (is_model M (map (fun vb => RFact vb) (fixed_vars ensure)) && is_model M (T_dp_avoid avoid))).
+   (is_model M (map (fun vb => RFact vb) (fixed_vars ensure)) && is_model M (avoid_rules avoid))).
 Proof.
   intros pn ensure avoid M. unfold deadlock_program, is_model. rewrite !forallb_app. reflexivity.
 Qed.
@@ -984,27 +979,26 @@ Proof.
   - rewrite IH. reflexivity.
 Qed.
 
+Lemma T_avoid_rules_cons : forall M (a : space) avoid,
+  is_model M (avoid_rules (a :: avoid)) =
+  negb (forallb M (fixed_vars a)) && is_model M (avoid_rules avoid).
+Proof.
+  intros M a avoid. simpl. destruct (fixed_vars a) as [|p l]; reflexivity.
+Qed.
+
 Lemma T_dp_avoid_state : forall (s : state) avoid,
   (forall a, In a avoid -> length a = length s) ->
-  (is_model (model_of_state s) (T_dp_avoid avoid) = true <-> existsb (in_space s) avoid = false).
+  (is_model (model_of_state s) (avoid_rules avoid) = true <-> existsb (in_space s) avoid = false).
 Proof.
-  intros s avoid Hlen. unfold T_dp_avoid.
-  destruct (existsb (fun a => match fixed_vars a with [] => true | _ => false end) avoid) eqn:E.
-  - simpl. split; [discriminate|]. intros Hno. exfalso.
-    apply existsb_exists in E. destruct E as [a [Ha Hnil]].
-    assert (Hin : existsb (in_space s) avoid = true).
-    { apply existsb_exists. exists a. split; [exact Ha|].
-      rewrite <- (T_state_places_in_space s a (eq_sym (Hlen a Ha))).
-      destruct (fixed_vars a); [reflexivity | discriminate]. }
-    rewrite Hno in Hin. discriminate.
-  - clear E. unfold is_model. induction avoid as [|a avoid IH]; simpl.
-    + split; reflexivity.
-    + assert (Ha : length s = length a) by (symmetry; apply Hlen; left; reflexivity).
-      assert (Hr : forall a', In a' avoid -> length a' = length s).
-      { intros a' Ha'. apply Hlen. right. exact Ha'. }
-      rewrite (T_state_places_in_space s a Ha), andb_true_iff, orb_false_iff, (IH Hr),
-        negb_true_iff.
-      split; intro H; exact H.
+  intros s avoid Hlen. induction avoid as [|a avoid IH].
+  - simpl. split; reflexivity.
+  - assert (Ha : length s = length a) by (symmetry; apply Hlen; left; reflexivity).
+    assert (Hr : forall a', In a' avoid -> length a' = length s).
+    { intros a' Ha'. apply Hlen. right. exact Ha'. }
+    rewrite T_avoid_rules_cons. simpl existsb.
+    rewrite (T_state_places_in_space s a Ha), andb_true_iff, orb_false_iff, (IH Hr),
+      negb_true_iff.
+    split; intro H; exact H.
 Qed.
 
 Lemma T_red_fixed_at_spec : forall N s (st : state) (R : space) k, length st = length R ->
